@@ -23,9 +23,10 @@ package ice
 // started candidate, or - for a duplicate candidate - already closed. On error
 // (cancelled context, closed loop) the caller still owns it.
 //@ func (*Agent).addCandidate
-//@   props C09
-//@   requires cand != nil && candidateConn != nil && !candidateConn.gHeld
-//@   requires offered-candidate-was-never-started: baseOf(cand).closeCh == nil
+//@   props C09 C18
+//@   site call Run#1 assert C18 the-submission-is-cancelled-with-its-gathering-cycle: arg0 == a.loop && arg1 == ctx
+//@   requires C09 cand != nil && candidateConn != nil && !candidateConn.gHeld
+//@   requires C09 offered-candidate-was-never-started: baseOf(cand).closeCh == nil
 //@   modifies candidateConn.gClosed, candidateConn.gHeld, fam:*
 //@   ensures success-consumes-the-socket: result == nil ==> (candidateConn.gHeld && candidateConn.gClosed == old(candidateConn.gClosed)) || (!candidateConn.gHeld && candidateConn.gClosed == old(candidateConn.gClosed) + 1)
 //@   ensures failure-leaves-it-with-the-caller: result != nil ==> candidateConn.gClosed == old(candidateConn.gClosed) && candidateConn.gHeld == old(candidateConn.gHeld) && unchangedExcept()
